@@ -676,7 +676,7 @@ Proof.
   unfold clean_one. destruct (is_own c f); [reflexivity|].
   destruct (visible s f); [|reflexivity].
   destruct (is_aio (first_line b)); [reflexivity|].
-  destruct (is_gen (c_cmd c) (first_line b)); reflexivity.
+  destruct (gen_sel c b); reflexivity.
 Qed.
 
 Lemma clean_ops_ru c s : forallb ru (clean_ops c s) = true.
@@ -693,7 +693,7 @@ Proof.
   destruct (visible s f) as [b|]; [|intros []].
   destruct (is_aio (first_line b)).
   - intros [<-|[]] [].
-  - destruct (is_gen (c_cmd c) (first_line b)).
+  - destruct (gen_sel c b).
     + intros [<-|[<-|[<-|[]]]]; cbn; try tauto. intros [<-|[]]. auto.
     + intros [<-|[<-|[]]] [].
 Qed.
@@ -977,7 +977,7 @@ Qed.
    same subcommand is not selected *)
 Lemma hand_written_not_selected c init n b :
   visible init n = Some b -> is_gen (c_cmd c) (first_line b) = false -> victim_spec c init n = false.
-Proof. intros V H. unfold victim_spec. rewrite V, H. now rewrite !andb_false_r. Qed.
+Proof. intros V H. unfold victim_spec, gen_sel. rewrite V, H. cbn. now rewrite !andb_false_r. Qed.
 
 Lemma aio_not_selected c init n b :
   visible init n = Some b -> is_aio (first_line b) = true -> victim_spec c init n = false.
@@ -999,7 +999,7 @@ Proof.
   apply andb_true_iff in H as [H Hv]. apply andb_true_iff in H as [H _]. apply andb_true_iff in H as [Hc Hg].
   repeat split; auto. destruct (visible init n) as [b|]; [|discriminate]. exists b.
   apply andb_true_iff in Hv as [Ha Hgen]. apply negb_true_iff in Ha.
-  repeat split; auto. now apply is_gen_prefix.
+  repeat split; auto. apply is_gen_prefix. unfold gen_sel in Hgen. now apply andb_true_iff in Hgen as [Hgen _].
 Qed.
 
 (* the guard [spares] holds for the all-in-one output whenever Clean's own-file test can
@@ -1155,7 +1155,7 @@ Proof.
       assert (Hr : ok s (ReadFirstLine f) = true) by (cbn; destruct (lookup f (dir s)); congruence).
       assert (Hs : step s (ReadFirstLine f) = s) by (unfold step; now rewrite Hr).
       destruct (is_aio (first_line b)); [cbn [all_ok]; now rewrite Hr|].
-      destruct (is_gen (c_cmd c) (first_line b)); cbn [all_ok]; rewrite Hr, Hs, Hr, ?Hs; [|reflexivity].
+      destruct (gen_sel c b); cbn [all_ok]; rewrite Hr, Hs, Hr, ?Hs; [|reflexivity].
       cbn. destruct (lookup f (dir s)); [reflexivity|congruence].
     - intros o n Ho Hn. now destruct (clean_one_touch c s0 f o n Ho Hn). }
   destruct Hone as (H1 & H2 & H3). rewrite H1. cbn.
@@ -1385,3 +1385,236 @@ Proof.
     destruct (F1 o Ho) as (i & L & _ & D).
     unfold visible. rewrite (Hunt _ (output_not_victim c init outs G o Ho)), L, Ed, D. reflexivity.
 Qed.
+
+(* --------------------------------------- "superseded", declaratively (issue: the text) *)
+(* the repaired Clean (c_supfix) removes only superseded files *)
+Theorem repaired_only_superseded c init n : c_supfix c = true -> victim_spec c init n = true ->
+  exists b, visible init n = Some b /\ superseded c b = true.
+Proof.
+  unfold victim_spec, gen_sel. intros F H. apply andb_true_iff in H as [_ H].
+  destruct (visible init n) as [b|]; [|discriminate]. exists b. split; [reflexivity|].
+  apply andb_true_iff in H as [_ H]. apply andb_true_iff in H as [_ H]. rewrite F in H. exact H.
+Qed.
+
+(* the current Clean does so exactly on the directory states in which every file it would select
+   is for types of this run - the complement of the input class of finding K_clean_not_superseded *)
+Definition all_selected_superseded (c : cfg) (init : fs) : Prop :=
+  forall n b, victim_spec c init n = true -> visible init n = Some b -> superseded c b = true.
+
+Theorem only_superseded_partial c init n : all_selected_superseded c init -> victim_spec c init n = true ->
+  exists b, visible init n = Some b /\ superseded c b = true.
+Proof.
+  intros A H. pose proof H as H'. unfold victim_spec in H'. apply andb_true_iff in H' as [_ H'].
+  destruct (visible init n) as [b|] eqn:V; [|discriminate]. exists b. split; [reflexivity|].
+  apply (A n b H). exact V.
+Qed.
+
+(* ------------------------------------------------------- failing system calls *)
+Lemma last_temp_In h p t : last_temp h p = Some t -> In (CreateTemp h t) p.
+Proof.
+  induction p as [|o r IH]; cbn; [discriminate|].
+  destruct (last_temp h r) as [t'|] eqn:E.
+  - intros H. injection H as <-. right. now apply IH.
+  - destruct o as [h' t'| | | | | | |]; try discriminate.
+    destruct (Nat.eqb_spec h' h) as [->|]; [|discriminate]. intros H. injection H as <-. now left.
+Qed.
+
+Lemma last_temp_app h a b :
+  last_temp h (a ++ b) = match last_temp h b with Some t => Some t | None => last_temp h a end.
+Proof.
+  induction a as [|o a IH]; cbn.
+  - destruct (last_temp h b); reflexivity.
+  - rewrite IH. destruct (last_temp h b); reflexivity.
+Qed.
+
+Lemma last_temp_none h l : (forall o, In o l -> exists b, o = Write h b) -> last_temp h l = None.
+Proof.
+  induction l as [|o l IH]; intros H; [reflexivity|]. cbn.
+  rewrite IH by (intros o' Ho'; apply H; now right).
+  destruct (H o (or_introl eq_refl)) as [b ->]. reflexivity.
+Qed.
+
+Lemma firstn_S_nth {A} (l : list A) : forall k x, nth_error l k = Some x -> firstn (S k) l = (firstn k l ++ [x])%list.
+Proof.
+  induction l as [|y l IH]; intros k x H; destruct k; cbn in *; try discriminate.
+  - injection H as ->. reflexivity.
+  - now rewrite (IH k x H).
+Qed.
+
+Lemma last_cases {A} (l : list A) : l = [] \/ exists l' a, l = (l' ++ [a])%list.
+Proof.
+  induction l as [|x l IH]; [now left|]. right. destruct IH as [->|(l' & a & ->)].
+  - exists [], x. reflexivity.
+  - exists (x :: l'), a. reflexivity.
+Qed.
+
+Lemma write_ops_last h done p x : write_ops h done = (p ++ [x])%list -> is_rename x = true.
+Proof.
+  destruct (last_cases done) as [->|(d' & o & ->)].
+  - cbn. intros E. now apply app_cons_not_nil in E.
+  - rewrite write_ops_app. unfold write_ops at 2. cbn [flat_map]. rewrite app_nil_r, note_down_split, app_assoc.
+    intros E. apply app_inj_tail in E as [_ <-]. reflexivity.
+Qed.
+
+Lemma unlink_gone s n : lookup n (dir (step s (Unlink n))) = None.
+Proof.
+  unfold step. destruct (negb (ok s (Unlink n))) eqn:Hok.
+  - apply negb_true_iff in Hok. cbn in Hok. destruct (lookup n (dir s)); [discriminate|reflexivity].
+  - cbn. apply lookup_remove_eq.
+Qed.
+
+Lemma plan_createtemp c init outs h t : In (CreateTemp h t) (plan c init outs) -> In t (temps outs).
+Proof.
+  unfold plan. intros H. apply in_app_or in H as [H|H].
+  - unfold write_ops in H. apply in_flat_map in H as (o & Ho & H). unfold note_down in H.
+    destruct H as [H|H].
+    + injection H as _ <-. now apply in_map.
+    + apply in_app_or in H as [H|[H|[H|[]]]]; try discriminate.
+      apply in_map_iff in H as (b & H & _). discriminate.
+  - pose proof (clean_ops_ru c (exec init (write_ops (c_fd c) outs))) as R.
+    rewrite forallb_forall in R. specialize (R _ H). discriminate.
+Qed.
+
+Lemma recover_props c init outs k x : nth_error (plan c init outs) k = Some x ->
+  let cl := recover x (firstn k (plan c init outs)) in
+  forallb safe cl = true /\ forall o n, In o cl -> In n (touch o) -> In n (temps outs).
+Proof.
+  intros Hx. cbn zeta. destruct x as [h t|h b|h|a b|m|m|h m|w]; cbn [recover]; try (split; [reflexivity|intros o n []]).
+  destruct (last_temp h (firstn k (plan c init outs))) as [t|] eqn:E; [|split; [reflexivity|intros o n []]].
+  split; [reflexivity|]. intros o n [<-|[<-|[]]]; cbn; [intros []|].
+  intros [<-|[]]. apply last_temp_In in E. apply (plan_createtemp c init outs h).
+  exact (prefix_of_In _ _ _ (prefix_of_firstn k _) E).
+Qed.
+
+Lemma faulted_safe c init outs k : forallb safe (faulted (plan c init outs) k) = true.
+Proof.
+  unfold faulted. destruct (nth_error (plan c init outs) k) as [x|] eqn:E; [|apply plan_safe].
+  rewrite forallb_app, (prefix_safe (prefix_of_firstn k _)).
+  now destruct (recover_props c init outs k x E) as [-> _].
+Qed.
+
+Section Faults.
+  Variables (c : cfg) (init : fs) (outs : list output).
+  Hypothesis G : good c init outs.
+
+  (* what a name other than a temporary shows after the recovery calls is what it showed at the crash point *)
+  Lemma vis_after_recover k x n : nth_error (plan c init outs) k = Some x -> ~ In n (temps outs) ->
+    let p := firstn k (plan c init outs) in
+    lookup n (dir (exec init (p ++ recover x p))) = lookup n (dir (exec init p)) /\
+    visible (exec init (p ++ recover x p)) n = visible (exec init p) n.
+  Proof.
+    intros Hx Hn. cbn zeta. set (p := firstn k (plan c init outs)).
+    destruct (recover_props c init outs k x Hx) as [Hs Ht]. fold p in Hs, Ht.
+    rewrite exec_app.
+    assert (L : lookup n (dir (exec (exec init p) (recover x p))) = lookup n (dir (exec init p))).
+    { apply exec_untouched. intros o Ho Hin. apply Hn. exact (Ht o n Ho Hin). }
+    split; [exact L|]. unfold visible. rewrite L.
+    destruct (lookup n (dir (exec init p))) as [i|] eqn:E; [|reflexivity]. f_equal.
+    destruct (prefix_state c init outs G p (prefix_of_firstn k _)) as (_ & _ & _ & C & _).
+    apply exec_closed; [exact Hs|exact (C n i Hn E)].
+  Qed.
+
+  (* every statement about crash points also holds after a failing call and its recovery *)
+  Theorem faulted_invariants k :
+    let s := exec init (faulted (plan c init outs) k) in
+    (forall o, In o outs -> visible s (o_name o) = visible init (o_name o) \/ visible s (o_name o) = Some (new_bytes o)) /\
+    (forall n, ~ In n (names outs) -> ~ In n (temps outs) -> ~ In n (victims c (exec init (write_ops (c_fd c) outs))) ->
+       lookup n (dir s) = lookup n (dir init) /\ visible s n = visible init n) /\
+    (forall n, In n (victims c (exec init (write_ops (c_fd c) outs))) -> visible s n = visible init n \/ visible s n = None) /\
+    (forall j, j < next init -> data s j = data init j).
+  Proof.
+    cbn zeta. split; [|split; [|split]].
+    - intros o Ho. unfold faulted. destruct (nth_error (plan c init outs) k) as [x|] eqn:E.
+      + assert (Hn : ~ In (o_name o) (temps outs)).
+        { intros H. apply (k_disj _ _ (g_ok _ _ _ G) _ H). now apply in_map. }
+        destruct (vis_after_recover k x (o_name o) E Hn) as [_ ->].
+        exact (atomic c init outs G _ o (prefix_of_firstn k _) Ho).
+      + exact (atomic c init outs G _ o (prefix_of_refl _) Ho).
+    - intros n H1 H2 H3. unfold faulted. destruct (nth_error (plan c init outs) k) as [x|] eqn:E.
+      + destruct (vis_after_recover k x n E H2) as [-> ->].
+        exact (frame c init outs G _ n (prefix_of_firstn k _) H1 H2 H3).
+      + exact (frame c init outs G _ n (prefix_of_refl _) H1 H2 H3).
+    - intros n Hv. unfold faulted. destruct (nth_error (plan c init outs) k) as [x|] eqn:E.
+      + assert (Hn : ~ In n (temps outs)) by (intros H; now apply (temp_not_victim c init outs G n H)).
+        destruct (vis_after_recover k x n E Hn) as [_ ->].
+        exact (victim_old_or_gone c init outs G _ n (prefix_of_firstn k _) Hv).
+      + exact (victim_old_or_gone c init outs G _ n (prefix_of_refl _) Hv).
+    - intros j Hj. apply exec_closed; [apply faulted_safe|]. apply init_closed; [apply G|exact Hj].
+  Qed.
+
+  (* no temporary file is left unless it is the rename that failed *)
+  Theorem faulted_no_temp_left k x t :
+    nth_error (plan c init outs) k = Some x -> can_fail x = true -> is_rename x = false ->
+    In t (temps outs) -> lookup t (dir (exec init (faulted (plan c init outs) k))) = None.
+  Proof.
+    intros Hx Hcf Hnr Ht. unfold faulted. rewrite Hx.
+    set (p := firstn k (plan c init outs)).
+    assert (Hpx : prefix_of (p ++ [x]) (plan c init outs)).
+    { unfold p. rewrite <- (firstn_S_nth _ k x Hx). apply prefix_of_firstn. }
+    pose proof G as [G1 G2 G3 _].
+    destruct (plan_prefix c init outs _ Hpx) as [Hw|(q & E & Hq)].
+    - destruct (prefix_write (c_fd c) outs _ Hw) as (done & rest & q & Eo & E & Hq).
+      assert (Hokd : okouts init done) by (rewrite Eo in G3; exact (okouts_prefix _ _ _ G3)).
+      destruct (write_phase (c_fd c) done init G1 G2 Hokd) as (W1 & W2 & W3 & W4 & W5 & W6 & W7 & W8).
+      set (sd := exec init (write_ops (c_fd c) done)) in *.
+      (* in the state after the complete blocks no temporary of the run is bound *)
+      assert (Hsd : forall t', In t' (temps outs) -> lookup t' (dir sd) = None).
+      { intros t' Ht'. destruct G3 as [Hn Htn Hfr Hdj].
+        pose proof Ht' as Hsplit. rewrite Eo in Hsplit. unfold temps in Hsplit. rewrite map_app in Hsplit.
+        apply in_app_or in Hsplit as [Hd|Hr]; [now apply W2|].
+        rewrite W3.
+        - now apply Hfr.
+        - intros Hx'. apply (Hdj t' Ht'). rewrite Eo. unfold names in *. rewrite map_app. apply in_or_app. now left.
+        - intros Hx'. pose proof Htn as Htn'. rewrite Eo in Htn'. unfold temps in Htn'. rewrite map_app in Htn'.
+          exact (NoDup_app_disj _ _ _ Htn' Hx' Hr). }
+      destruct (last_cases q) as [->|(q0 & y & ->)].
+      + rewrite app_nil_r in E. symmetry in E. apply write_ops_last in E. congruence.
+      + destruct Hq as [Hq|(o & rest' & -> & Hq)]; [symmetry in Hq; now apply app_cons_not_nil in Hq|].
+        rewrite app_assoc in E. apply app_inj_tail in E as [Ep <-]. fold p in Ep.
+        unfold pre_ops in Hq. destruct q0 as [|y0 q1].
+        * (* the failing call is CreateTemp: nothing was created *)
+          destruct Hq as [r Hr]. cbn in Hr. injection Hr as <- _. cbn [recover]. rewrite app_nil_r in *.
+          rewrite Ep. now apply Hsd.
+        * destruct Hq as [r Hr]. cbn in Hr. injection Hr as <- Hr.
+          assert (Hq1 : prefix_of (q1 ++ [x]) (map (Write (c_fd c)) (o_chunks o) ++ [Close (c_fd c)])) by (exists r; exact Hr).
+          (* x is a Write and q1 consists of Writes *)
+          assert (Hxw : (exists b, x = Write (c_fd c) b) /\ forall o', In o' q1 -> exists b, o' = Write (c_fd c) b).
+          { apply prefix_of_app in Hq1 as [Hq1|(q2 & E2 & Hq2)].
+            - assert (A : forall o', In o' (q1 ++ [x]) -> exists b, o' = Write (c_fd c) b).
+              { intros o' Ho'. apply (prefix_of_In _ _ _ Hq1) in Ho'. apply in_map_iff in Ho' as (b & <- & _). now exists b. }
+              split; [apply A; apply in_or_app; right; now left|intros o' Ho'; apply A; apply in_or_app; now left].
+            - apply prefix_singleton in Hq2 as [->| ->].
+              + rewrite app_nil_r in E2.
+                assert (A : forall o', In o' (q1 ++ [x]) -> exists b, o' = Write (c_fd c) b).
+                { intros o' Ho'. rewrite E2 in Ho'. apply in_map_iff in Ho' as (b & <- & _). now exists b. }
+                split; [apply A; apply in_or_app; right; now left|intros o' Ho'; apply A; apply in_or_app; now left].
+              + apply app_inj_tail in E2 as [_ ->]. discriminate. }
+          destruct Hxw as [[b ->] Hws].
+          assert (Elt : last_temp (c_fd c) p = Some (o_tmp o)).
+          { rewrite Ep, last_temp_app. cbn [last_temp]. rewrite (last_temp_none _ _ Hws), Nat.eqb_refl. reflexivity. }
+          cbn [recover]. rewrite Elt, Ep, !exec_app. fold sd.
+          destruct (String.eqb_spec t (o_tmp o)) as [->|Hne].
+          -- cbn [exec]. apply unlink_gone.
+          -- rewrite <- !exec_app. rewrite exec_untouched; [now apply Hsd|].
+             intros o' Ho' Hin. apply in_app_or in Ho' as [Ho'|[<-|[<-|[]]]].
+             ++ destruct Ho' as [<-|Ho']; [cbn in Hin; destruct Hin as [<-|[]]; congruence|].
+                destruct (Hws o' Ho') as [b' ->]. destruct Hin.
+             ++ destruct Hin.
+             ++ cbn in Hin. destruct Hin as [<-|[]]. congruence.
+    - (* the failing call belongs to Clean *)
+      destruct (s1_facts c init outs G) as (_ & F2 & _).
+      destruct (last_cases q) as [->|(q0 & y & ->)].
+      + rewrite app_nil_r in E. symmetry in E. apply write_ops_last in E. congruence.
+      + rewrite app_assoc in E. apply app_inj_tail in E as [Ep <-]. fold p in Ep.
+        assert (Hq0 : prefix_of q0 (clean_ops c (exec init (write_ops (c_fd c) outs)))).
+        { destruct Hq as [r Hr]. exists ([x] ++ r)%list. now rewrite app_assoc. }
+        destruct (clean_prefix_facts c init outs q0 Hq0) as [Hru _].
+        assert (Hrx : ru x = true).
+        { pose proof (clean_ops_ru c (exec init (write_ops (c_fd c) outs))) as R. rewrite forallb_forall in R.
+          apply R. apply (prefix_of_In _ _ _ Hq). apply in_or_app. right. now left. }
+        assert (Hrec : recover x p = []) by (destruct x; try discriminate; reflexivity).
+        rewrite Hrec, app_nil_r, Ep, exec_app.
+        destruct (exec_ru q0 (exec init (write_ops (c_fd c) outs)) Hru) as (_ & _ & _ & El).
+        destruct (El t) as [El'|El']; [rewrite El'; now apply F2|exact El'].
+  Qed.
+End Faults.
